@@ -355,7 +355,8 @@ func c27R34(c *Ctx) {
 					}
 				}
 				// called only with the lock held? (flush helper invoked from NewEndpoint's region)
-				if !held && flushFns[fi.Obj] != nil && fi != newEP {
+				// a helper that never takes the lock itself is fine when every call site holds it
+				if !held && fi != newEP {
 					held = calledOnlyUnderLock(c, fi, "Mux.lock")
 				}
 				if !held {
@@ -396,7 +397,29 @@ func c27R34(c *Ctx) {
 		rs, ok := n.(ast.Expr)
 		return ok && core.FieldOf(info, rs) == endpoints
 	})
+	// functions of the package that write the pending queue (the append may live in a helper called under the lock)
+	pendingWriters := map[*types.Func]bool{}
+	for _, fi := range c.P.AllFuncs() {
+		if fi.Pkg != pkg || fi.Decl.Body == nil || fi == dispatch {
+			continue
+		}
+		ast.Inspect(fi.Decl.Body, func(n ast.Node) bool {
+			if as, ok := n.(*ast.AssignStmt); ok {
+				for _, l := range as.Lhs {
+					if core.FieldOf(info, l) == pending {
+						pendingWriters[fi.Obj] = true
+					}
+				}
+			}
+			return true
+		})
+	}
 	app := dg.FindNodes(func(n ast.Node) bool {
+		if call, ok := n.(*ast.CallExpr); ok {
+			if fn := core.Callee(info, call); fn != nil && pendingWriters[fn] {
+				return true
+			}
+		}
 		as, ok := n.(*ast.AssignStmt)
 		if !ok {
 			return false
